@@ -92,6 +92,59 @@ fn g5() -> Vec<(String, crate::gram::G)> {
     out
 }
 
+/// G9, for the determinism part only: grammars that put SEVERAL elements into every collection the generator walks while
+/// numbering things (k non-terminal extras with distinct first tokens, and one grammar with several supertypes, inlined
+/// rules, fields, aliases, named precedences, external tokens, keywords and conflicts). Where an unordered collection leaked
+/// into the output, two processes (different hash seeds) agree with probability 1/k!.
+fn g9() -> Vec<(String, crate::gram::G)> {
+    use crate::gram::*;
+    let mut out = vec![];
+    for k in 2..=5usize {
+        let toks = ["#", "@", "~", "^", "%"];
+        let mut g = G::new(&format!("g9_nte_{}", k)).rule("source", rep(sym("word"))).rule("word", pat("[a-z]+"));
+        let mut extras = vec![pat("\\s")];
+        for j in 0..k { g = g.rule(&format!("ex{}", j), seq(vec![s(toks[j]), sym("word")])); extras.push(sym(&format!("ex{}", j))); }
+        g = g.extras(extras);
+        out.push((g.name.clone(), g));
+    }
+    let e = || sym("_expr");
+    let g = G::new("g9_sink")
+        .word("ident")
+        .supertype("_expr").supertype("_stmt").supertype("_decl")
+        .inline("_in_a").inline("_in_b")
+        .external(sym("ext_a")).external(sym("ext_b")).external(sym("ext_c"))
+        .conflict(&["call", "index"]).conflict(&["tuple", "paren"])
+        .precedence_order(&["mul", "add", "cmp"])
+        .rule("source", rep(sym("_stmt")))
+        .rule("_stmt", choice(vec![sym("ret"), sym("expr_stmt"), sym("_decl")]))
+        .rule("_decl", choice(vec![sym("let_decl"), sym("fn_decl"), sym("type_decl")]))
+        .rule("let_decl", seq(vec![s("let"), field("name", alias(sym("ident"), "binding", true)), s("="), field("value", e()), s(";")]))
+        .rule("fn_decl", seq(vec![s("fn"), field("name", alias(sym("ident"), "fn_name", true)), s("("), field("param", rep(sym("ident"))), s(")"), field("body", sym("_in_a"))]))
+        .rule("type_decl", seq(vec![s("type"), field("name", alias(sym("ident"), "type_name", true)), s("="), field("kind", sym("_in_b")), s(";")]))
+        .rule("_in_a", seq(vec![s("{"), rep(sym("_stmt")), s("}")]))
+        .rule("_in_b", choice(vec![sym("ident"), sym("ext_a"), seq(vec![sym("ext_b"), sym("ident")])]))
+        .rule("ret", seq(vec![s("return"), opt(e()), sym("ext_c"), s(";")]))
+        .rule("expr_stmt", seq(vec![e(), s(";")]))
+        .rule("_expr", choice(vec![sym("ident"), sym("number"), sym("binary"), sym("call"), sym("index"), sym("paren"), sym("tuple")]))
+        .rule("binary", choice(vec![
+            prec_named_left("mul", seq(vec![field("left", e()), s("*"), field("right", e())])),
+            prec_named_left("add", seq(vec![field("left", e()), s("+"), field("right", e())])),
+            prec_named_left("cmp", seq(vec![field("left", e()), s("<"), field("right", e())])),
+        ]))
+        .rule("call", prec(5, seq(vec![field("callee", e()), s("("), opt(e()), s(")")])))
+        .rule("index", prec(5, seq(vec![field("base", e()), s("["), e(), s("]")])))
+        .rule("paren", seq(vec![s("("), e(), s(")")]))
+        .rule("tuple", seq(vec![s("("), e(), s(","), e(), s(")")]))
+        .rule("ident", pat("[a-z_]+"))
+        .rule("number", pat("[0-9]+"))
+        .rule("comment", token(seq(vec![s("//"), pat("[^\\n]*")])))
+        .rule("note", seq(vec![s("#"), sym("ident")]))
+        .rule("mark", seq(vec![s("@"), sym("number")]))
+        .extras(vec![pat("\\s"), sym("comment"), sym("note"), sym("mark")]);
+    out.push((g.name.clone(), g));
+    out
+}
+
 fn zoo_specs() -> Vec<(String, LangSpec, Vec<Vec<u8>>)> {
     crate::zoo::core_zoo().into_iter().chain(std::iter::once(crate::zoo::tmpl())).map(|z| { let docs = crate::docs::docs(&z, 3); (z.name.to_string(), z.spec.clone(), docs) }).collect()
 }
@@ -158,6 +211,35 @@ pub fn worker(ctx: &Ctx, res: &mut ShardResult) {
         res.states += 1;
         mine.push(json!({"name": name, "grammar": serde_json::from_str::<Value>(&spec.grammar_json).unwrap()}));
         for d in docs { compare_parsers(&name, &merged.language, &unmerged.language, &d, res, json!({"part": "equivalence", "zoo": name, "text": crate::util::bytes_json(&d)})); }
+    }
+    // (b') determinism on G9: six processes (worker 0 only; the grammars exist for this part alone)
+    if ctx.shard == 0 {
+        let g9s: Vec<Value> = g9().into_iter().map(|(name, g)| json!({"name": name, "grammar": g.to_value()})).collect();
+        let dir = lang::work_dir().join("run").join(format!("c15-g9-{}", std::process::id()));
+        std::fs::create_dir_all(&dir).unwrap();
+        let list = dir.join("grammars.jsonl");
+        std::fs::write(&list, g9s.iter().map(|v| serde_json::to_string(v).unwrap()).collect::<Vec<_>>().join("\n")).unwrap();
+        let exe = std::env::current_exe().unwrap();
+        crate::run::pause_watchdog(true);
+        let mut outs: Vec<Vec<String>> = vec![];
+        for _ in 0..6 {
+            let o = std::process::Command::new(&exe).arg("genhash").arg(&list).output().expect("spawn genhash");
+            if !o.status.success() { res.violation("generator-process-failed", String::from_utf8_lossy(&o.stderr).chars().take(500).collect(), json!({"part": "determinism-g9"})); }
+            outs.push(String::from_utf8_lossy(&o.stdout).lines().map(|l| l.to_string()).collect());
+        }
+        crate::run::pause_watchdog(false);
+        for (k, line) in outs[0].iter().enumerate() {
+            res.transitions += 6;
+            let name = line.split(' ').next().unwrap_or("");
+            if line.contains(" rejected") { res.violation("ENGINE-g9-grammar-rejected", format!("the generator rejects {}", line), json!({"part": "determinism-g9", "grammar": name})); continue; }
+            res.nontrivial += 1;
+            res.states += 1;
+            let distinct: std::collections::HashSet<&String> = outs.iter().filter_map(|o| o.get(k)).collect();
+            if distinct.len() != 1 || outs.iter().any(|o| o.len() != outs[0].len()) {
+                res.violation("generation-not-deterministic", format!("grammar {}: {} distinct outputs among 6 processes: {:?}", name, distinct.len(), distinct), json!({"part": "determinism-g9", "grammar": name}));
+            }
+        }
+        let _ = std::fs::remove_dir_all(&dir);
     }
     // (b) determinism: three separate processes over this shard's grammars
     if mine.is_empty() { return; }
